@@ -285,6 +285,7 @@ impl Harness for Managed {
     fn grid(&self, profile: &str, _thorough: bool) -> Vec<MScenario> {
         match profile {
             "C03" => c03_grid(),
+            "C10" => c10_grid(),
             _ => Vec::new(),
         }
     }
@@ -447,6 +448,82 @@ pub fn c03_grid() -> Vec<MScenario> {
                                 rest_every: 0,
                             };
                             out.push(sc);
+                        }
+                    }
+                }
+            }
+        }
+    }
+    out
+}
+
+
+/// C10 sub-grid: pool-level x per-call timeouts in {none, zero, finite}^3 x {runtime, none},
+/// each against an empty, an idle and an exhausted pool (single task, sequential).
+pub fn c10_grid() -> Vec<MScenario> {
+    use crate::engine::Knobs;
+    let vals: [Option<u64>; 3] = [None, Some(0), Some(10)];
+    let plain = Op::Get { t: GetT::Explicit { wait: Some(0), create: None, recycle: None }, fault: None, enclosing: None, cancellable: false };
+    let mut out = Vec::new();
+    for runtime in [true, false] {
+        for pw in vals {
+            for pc in vals {
+                for pr in vals {
+                    // per-call: inherit, or one explicit triple chosen to cover all 27 over the pool-level loop
+                    let mut calls: Vec<GetT> = vec![GetT::Inherit];
+                    for cw in vals {
+                        for cc in vals {
+                            for cr in vals {
+                                calls.push(GetT::Explicit { wait: cw, create: cc, recycle: cr });
+                            }
+                        }
+                    }
+                    // keep the grid affordable: all 28 call variants only for pool-level none/none/none
+                    // and for the diagonal; otherwise inherit + 3 representative explicit variants
+                    let full = (pw.is_none() && pc.is_none() && pr.is_none()) || (pw == pc && pc == pr);
+                    if !full {
+                        calls = vec![
+                            GetT::Inherit,
+                            GetT::Explicit { wait: Some(0), create: Some(10), recycle: Some(10) },
+                            GetT::Explicit { wait: Some(10), create: None, recycle: None },
+                            GetT::Explicit { wait: None, create: Some(0), recycle: Some(0) },
+                        ];
+                    }
+                    for t in calls {
+                        for base in 0..3 {
+                            let mut ops = Vec::new();
+                            match base {
+                                0 => {}
+                                1 => {
+                                    ops.push(plain);
+                                    ops.push(Op::Return { slot: 0 });
+                                }
+                                _ => {
+                                    ops.push(plain);
+                                }
+                            }
+                            ops.push(Op::Get { t, fault: None, enclosing: None, cancellable: false });
+                            ops.push(Op::Status);
+                            out.push(MScenario {
+                                profile: "C10".into(),
+                                pool: PoolCfg {
+                                    max_size: 1,
+                                    lifo: false,
+                                    wait: pw,
+                                    create: pc,
+                                    recycle: pr,
+                                    runtime,
+                                    post_create: vec![],
+                                    pre_recycle: vec![],
+                                    post_recycle: vec![],
+                                },
+                                actors: vec![ops],
+                                outcomes: Outcomes::default(),
+                                knobs: Knobs::default(),
+                                sched_seed: 1,
+                                drop_handles_first: false,
+                                rest_every: 0,
+                            });
                         }
                     }
                 }
